@@ -454,7 +454,7 @@ func genFacts() {
 	dirtyIf := vc.ifWithCond(vac, "table.Tree.Root.IsDirty()")
 	f["vacuumRefusesDirty"] = leanBool(dirtyIf != nil && endsIn(dirtyIf.Body, "return") && dirtyIf.Pos() < vc.firstCallPos(vac, "table.Tree.Root.Clone"))
 	rfin := rf.fn("RefreshFunc.Final")
-	rdIf := rf.ifWithCond(rfin, "vt.Tree.Root.IsDirty()")
+	rdIf := rf.ifWithCond(rfin, "!vt.S3Options.ReadOnly && vt.Tree.Root.IsDirty()")
 	f["refreshRefusesDirty"] = leanBool(rdIf != nil && endsIn(rdIf.Body, "return") && rdIf.Pos() < rf.firstCallPos(rfin, "s3db.OpenKV"))
 	rt := kvs.fn("DB.RemoveTombstones")
 	f["tombCutoff"] = leanStr("unknown")
